@@ -353,30 +353,47 @@ def bounded_documents(ctx, b):
         b.case(("dfxp", doc), got == exp and all(type(x) is int for p in got for x in p),
                {"expected": exp, "got": got}, sample={"format": "dfxp", "doc": doc})
     # ---- SAMI: end = next sync of the language with a different start; last = +4 s
-    head = ('<SAMI><HEAD><STYLE TYPE="text/css"><!-- .ENCC {Name: English; lang: en-US;} '
-            '.FRCC {Name: French; lang: fr-FR;} --></STYLE></HEAD><BODY>%s</BODY></SAMI>')
+    head = ('<SAMI><HEAD><STYLE TYPE="text/css"><!-- .ENCC {Name: English; lang: %s;} '
+            '.FRCC {Name: French; lang: %s;} --></STYLE></HEAD><BODY>%s</BODY></SAMI>')
     for rep in range(n):
+        # the second language may be a sub-tag extension of the first one (en / en-US): the cues of a
+        # language come from the syncs of exactly that language
+        la, lb = rng.choice([("en-US", "fr-FR"), ("en", "en-US"), ("fr", "fr-CA"), ("en-US", "en")])
         k = rng.choice([1, 2, 4])
         starts = sorted(rng.sample(range(0, 10 ** 7), k))
+        own_syncs = rng.random() < 0.5
         ends = []
         body = ""
+        other = []
         for i, s in enumerate(starts):
             body += f'<SYNC start="{s}"><P class="ENCC">en {i}</P>'
-            if rng.random() < 0.5:
+            if not own_syncs and rng.random() < 0.5:
                 body += f'<P class="FRCC">fr {i}</P>'
             body += "</SYNC>"
+            nxt = starts[i + 1] if i + 1 < len(starts) else s + 9000
+            if own_syncs and nxt - s > 2 and rng.random() < 0.7:
+                o = rng.randrange(s + 1, nxt)
+                other.append(o)
+                body += f'<SYNC start="{o}"><P class="FRCC">fr {i}</P></SYNC>'
             if i + 1 < len(starts) and rng.random() < 0.5:
-                blank = rng.randrange(s + 1, starts[i + 1] + 1)
+                blank = rng.randrange((other[-1] if other and other[-1] > s else s) + 1, starts[i + 1] + 1)
                 if blank < starts[i + 1]:
                     body += f'<SYNC start="{blank}"><P class="ENCC">&nbsp;</P></SYNC>'
                     ends.append(blank)
                     continue
             ends.append(starts[i + 1] if i + 1 < len(starts) else s + 4000)
-        doc = head % body
-        caps = reader(SAMIReader).read(doc).get_captions("en-US")
+        doc = head % (la, lb, body)
+        cs = reader(SAMIReader).read(doc)
+        caps = cs.get_captions(la)
         got = [(c_.start, c_.end) for c_ in caps]
         exp = [(s * 1000, e * 1000) for s, e in zip(starts, ends)]
-        b.case(("sami", doc), got == exp, {"expected": exp, "got": got}, sample={"format": "sami", "doc": doc})
+        ok = got == exp
+        if own_syncs and other:
+            got_b = [(c_.start, c_.end) for c_ in cs.get_captions(lb)]
+            exp_b = [(s * 1000, e * 1000) for s, e in zip(other, other[1:] + [other[-1] + 4000])]
+            ok = ok and got_b == exp_b
+            got, exp = (got, got_b), (exp, exp_b)
+        b.case(("sami", doc), ok, {"expected": exp, "got": got}, sample={"format": "sami", "doc": doc})
     # ---- MicroDVD
     for rep in range(n):
         fps = rng.choice([None, None, "23.976", "29.97", "30", "12.5", "24.000"])
